@@ -128,6 +128,141 @@ V_CkdSeq(e) ==
              ELSE "seq-" \o NodeDiff(r.node, g.node)
 
 ---------------------------------------------------------------------------
+\* C07 extended keys
+\* decode an emitted 111-character string with the specification's own decoder
+DecodeExt(e, str) ==
+  LET sh == DecCheckShape(str)
+  IN IF ~sh.ok THEN [ok |-> FALSE, why |-> sh.why]
+     ELSE IF Take(Hash256(e, sh.body), 4) # sh.sum THEN [ok |-> FALSE, why |-> "checksum"]
+     ELSE IF Len(sh.body) # 78 THEN [ok |-> FALSE, why |-> "length"]
+     ELSE [ok |-> TRUE, body |-> sh.body]
+
+V_ExtSer(e) ==               \* e.inp = [node, version, kind]
+  LET n == InNode(e, e.inp.node)
+      pay == IF e.inp.kind = "prv" THEN SerPrv(n, e.inp.version) ELSE SerPub(n, e.inp.version)
+      want == EncCheck(pay, Hash256(e, pay))
+  IN IF Raised(e) THEN "extser-raised"
+     ELSE IF Len(e.res.v) # 111 THEN "extser-not-111-characters"
+     ELSE IF e.res.v # want
+          THEN \* second direction: decode what was emitted and name the differing field
+               LET d == DecodeExt(e, e.res.v)
+               IN IF ~d.ok THEN "extser-does-not-decode-" \o d.why
+                  ELSE LET f == Fields(d.body)  w == Fields(pay)
+                       IN IF f.version # w.version THEN "extser-version"
+                          ELSE IF f.depth # w.depth THEN "extser-depth"
+                          ELSE IF f.pfp # w.pfp THEN "extser-parent-fingerprint"
+                          ELSE IF f.idx # w.idx THEN "extser-child-number"
+                          ELSE IF f.c # w.c THEN "extser-chain-code"
+                          ELSE "extser-key-data"
+     ELSE IF e.inp.kind = "pub" /\ n.prv /\ IsSubSeqOf(n.k, DecodeExt(e, e.res.v).body)
+          THEN "extser-public-string-contains-private-scalar"
+     ELSE "ok"
+
+\* e.inp = [s (text or bytes), form, asPrv, net]; e.res.v = [node, again (re-serialised string)]
+V_ExtParse(e) ==
+  LET body == IF e.inp.form = "str" THEN DecodeExt(e, e.inp.s) ELSE [ok |-> Len(e.inp.s) = 78, body |-> e.inp.s, why |-> "length"]
+  IN IF ~body.ok THEN (IF Raised(e) THEN "ok" ELSE "ok")      \* malformed input: C10's business
+     ELSE
+     LET q == ParsePayload(body.body, e.inp.asPrv, e.inp.net)
+         keyOk == IF e.inp.asPrv THEN q.keydata[1] = 0 /\ ValidScalar32(Drop(q.keydata, 1))
+                  ELSE SecShape(q.keydata) /\ SecNorm(e, q.keydata) # <<>>
+     IN IF ~keyOk THEN "ok"        \* not a valid BIP32 payload: outside C07's domain
+        ELSE IF Raised(e) THEN "extparse-raised-on-valid"
+        ELSE LET want == IF e.inp.asPrv
+                         THEN K32!PrvNode(e, Drop(q.keydata, 1), q.c, q.depth, q.idx, q.pfp, q.net)
+                         ELSE K32!PubNode(q.keydata, q.c, q.depth, q.idx, q.pfp, q.net)
+                 d == NodeDiff(want, e.res.v.node)
+                 str == IF e.inp.form = "str" THEN e.inp.s
+                        ELSE EncCheck(body.body, Hash256(e, body.body))
+             IN IF d # "same" THEN "extparse-" \o d
+                ELSE IF e.res.v.version # q.version THEN "extparse-version"
+                ELSE IF e.res.v.again # str /\ (IsMaster(want) => IsZero(q.pfp)) THEN "extparse-reserialise-differs"
+                ELSE "ok"
+
+\* e.inp = [s]; e.res.v = [net, watch_only, node, bip85]
+V_Import(e) ==
+  LET body == DecodeExt(e, e.inp.s)
+  IN IF ~body.ok THEN (IF Raised(e) THEN "ok" ELSE "import-accepted-malformed-string")
+     ELSE LET ver == SubSeq(body.body, 1, 4)
+              k == ImportKind(ver)
+          IN IF ~k.ok THEN (IF Raised(e) THEN "ok" ELSE "import-accepted-unknown-version")
+             ELSE LET q == ParsePayload(body.body, k.prv, k.net)
+                      keyOk == IF k.prv THEN q.keydata[1] = 0 /\ ValidScalar32(Drop(q.keydata, 1))
+                               ELSE SecShape(q.keydata) /\ SecNorm(e, q.keydata) # <<>>
+                  IN IF ~keyOk THEN "ok"
+                     ELSE IF Raised(e) THEN "import-raised-on-valid"
+                     ELSE IF e.res.v.net # k.net THEN "import-network-not-from-version"
+                     ELSE IF e.res.v.watch_only # ~k.prv THEN "import-key-type-not-from-version"
+                     ELSE IF e.res.v.has_bip85 # k.prv THEN "import-bip85-presence"
+                     ELSE LET want == IF k.prv
+                                      THEN K32!PrvNode(e, Drop(q.keydata, 1), q.c, q.depth, q.idx, q.pfp, q.net)
+                                      ELSE K32!PubNode(q.keydata, q.c, q.depth, q.idx, q.pfp, q.net)
+                              d == NodeDiff(want, e.res.v.node)
+                          IN IF d # "same" THEN "import-" \o d ELSE "ok"
+
+---------------------------------------------------------------------------
+\* C09 key encodings
+V_PubOf(e) ==                \* e.inp = k (32 bytes, valid)
+  IF Raised(e) THEN "pubof-raised"
+  ELSE IF e.res.v.k # e.inp THEN "pubof-scalar-changed"
+  ELSE IF e.res.v.secc # PtC(e, e.inp) THEN "pubof-compressed-sec"
+  ELSE IF e.res.v.secu # PtU(e, e.inp) THEN "pubof-uncompressed-sec"
+  ELSE IF e.res.v.parsec # PtC(e, e.inp) THEN "sec-compressed-does-not-parse-back"
+  ELSE IF e.res.v.parseu # PtC(e, e.inp) THEN "sec-uncompressed-does-not-parse-back"
+  ELSE "ok"
+
+\* e.inp = [form, v]: v is the byte string handed to the constructor, or for the
+\* integer forms the big-endian bytes of the integer (minimal, may exceed 32 bytes)
+V_PrivCtor(e) ==
+  LET v == e.inp.v
+      isInt == e.inp.form \in {"int", "from_int"}
+      \* integer: value must be in [1, n-1]
+      stripped == Drop(v, CountLeading(v, 0))
+      intOk == Len(stripped) >= 1 /\ Len(stripped) <= 32
+               /\ Less(Zeros(32 - Len(stripped)) \o stripped, SecpN)
+      want == IF isInt THEN Zeros(32 - Len(stripped)) \o stripped ELSE v
+      ok == IF isInt THEN intOk ELSE ValidScalar32(v)
+  IN IF ~ok THEN (IF Raised(e) THEN "ok"
+                  ELSE IF isInt THEN "ctor-accepted-out-of-range-integer"
+                  ELSE IF Len(v) # 32 THEN "ctor-accepted-wrong-length"
+                  ELSE "ctor-accepted-out-of-range-scalar")
+     ELSE IF Raised(e) THEN "ctor-raised-on-valid"
+     ELSE IF e.res.v.k # want THEN "ctor-scalar"
+     ELSE "ok"
+
+V_Wif(e) ==                  \* e.inp = [k, compressed, net]
+  LET p == WifPayload(e.inp.k, e.inp.compressed, e.inp.net)
+  IN IF Raised(e) THEN "wif-raised"
+     ELSE IF e.res.v.wif # EncCheck(p, Hash256(e, p)) THEN "wif-string"
+     ELSE IF ~e.res.v.back.ok THEN "wif-does-not-decode-back"
+     ELSE IF e.res.v.back.k # e.inp.k THEN "wif-decodes-to-other-key"
+     ELSE "ok"
+
+V_FromWif(e) ==              \* e.inp = string
+  LET sh == DecCheckShape(e.inp)
+  IN IF ~sh.ok \/ Take(Hash256(e, sh.body), 4) # sh.sum
+     THEN (IF Raised(e) THEN "ok" ELSE "fromwif-accepted-bad-base58check")
+     ELSE IF Len(sh.body) < 1 \/ sh.body[1] \notin {128, 239} THEN "ok"     \* not a WIF version byte: not judged
+     ELSE LET r == WifParse(sh.body, 32)
+          IN IF ~r.ok \/ ~ValidScalar32(r.k)
+             THEN (IF Raised(e) THEN "ok" ELSE "fromwif-accepted-malformed-payload")
+             ELSE IF Raised(e) THEN "fromwif-raised-on-valid"
+             ELSE IF e.res.v.k # r.k THEN "fromwif-key"
+             ELSE "ok"
+
+V_SecParse(e) ==             \* e.inp = candidate bytes
+  LET s == e.inp
+      hybrid == Len(s) = 65 /\ s[1] \in {6, 7}
+      raw64 == Len(s) = 64
+  IN IF hybrid \/ raw64 THEN "ok"          \* outside the stated rejection domain
+     ELSE IF SecShape(s) /\ SecNorm(e, s) # <<>>
+          THEN IF Raised(e) THEN "secparse-raised-on-valid"
+               ELSE IF e.res.v.secc # SecNorm(e, s) THEN "secparse-other-point" ELSE "ok"
+          ELSE IF Raised(e) THEN "ok"
+               ELSE IF ~SecShape(s) THEN "secparse-accepted-bad-prefix-or-length"
+               ELSE "secparse-accepted-point-not-on-curve"
+
+---------------------------------------------------------------------------
 Verdict(e) ==
   CASE e.act = "Master" -> V_Master(e)
     [] e.act = "CkdPriv" -> V_CkdPriv(e)
@@ -135,6 +270,14 @@ Verdict(e) ==
     [] e.act = "DerivePath" -> V_DerivePath(e)
     [] e.act = "Agree" -> V_Agree(e)
     [] e.act = "CkdSeq" -> V_CkdSeq(e)
+    [] e.act = "ExtSer" -> V_ExtSer(e)
+    [] e.act = "ExtParse" -> V_ExtParse(e)
+    [] e.act = "Import" -> V_Import(e)
+    [] e.act = "PubOf" -> V_PubOf(e)
+    [] e.act = "PrivCtor" -> V_PrivCtor(e)
+    [] e.act = "Wif" -> V_Wif(e)
+    [] e.act = "FromWif" -> V_FromWif(e)
+    [] e.act = "SecParse" -> V_SecParse(e)
     [] OTHER -> "unknown-act"
 
 TraceInit == l = 1
